@@ -244,7 +244,11 @@ def make_objects(rng, i):
     if fam == 3:
         which = (i // 12) % 4
         if which == 0:
-            return PCAVectorModel(pca_data(rng, int(rng.integers(4, 10)), int(rng.integers(3, 8)))), "PCAVectorModel", 0
+            m_ = PCAVectorModel(pca_data(rng, int(rng.integers(4, 10)), int(rng.integers(3, 8))))
+            if m_.n_components > 1 and rng.random() < 0.5:
+                # a model with a history: fewer active components than it holds (by count or by variance kept)
+                m_.n_active_components = int(rng.integers(1, m_.n_components)) if rng.random() < 0.6 else float(rng.uniform(0.3, 0.9)) * m_._total_variance_ratio()
+            return m_, "PCAVectorModel", 0
         if which == 1:
             k = int(rng.integers(4, 8))
             if rng.random() < 0.4:
@@ -261,7 +265,10 @@ def make_objects(rng, i):
                 samples[0].landmarks["lm"] = ms.PointCloud(rng.uniform(0, 2, (3, 2)))
                 return PCAModel(samples), "PCAModel", 2
             samples = [ms.PointCloud(rng.normal(size=(k, d))) for _ in range(int(rng.integers(4, 9)))]
-            return PCAModel(samples), "PCAModel", d
+            m_ = PCAModel(samples)
+            if m_.n_components > 1 and rng.random() < 0.5:
+                m_.n_active_components = int(rng.integers(1, m_.n_components))
+            return m_, "PCAModel", d
         if which == 2:
             return LinearVectorModel(rng.normal(size=(3, 6))), "LinearVectorModel", 0
         return MeanLinearVectorModel(rng.normal(size=(3, 6)), rng.normal(size=6)), "MeanLinearVectorModel", 0
